@@ -118,7 +118,7 @@ Definition chk_S_go init (ops : list vop) probes (outs : list (res unit)) (obser
    specification index over the labels the derivation must produce (S_select / S_drop / S_roll ...) ---- *)
 Definition chk_S_derived (expect : res (list val)) probes (observed : res vobs) : bool :=
   match expect with
-  | Err e => match observed with Err e' => String.eqb e e' | Ok _ => false end
+  | Err e => match observed with Err _ => true | Ok _ => false end   (* a malformed key must be refused; C02 does not fix the class *)
   | Ok l => chk_S_index l probes observed
   end.
 Definition chk_M_derived (expect : res (list val)) probes (observed : res vobs) : bool :=
